@@ -29,19 +29,25 @@ DRIVER = "dm_reduce"
 LEAN_MODULES = ["DaskModel.Props.C33"]
 CASE_TIMEOUT_S = 20
 LEVEL_TEXT = (
-    "Proved in Lean 4 at the element type Masked = Option Int (none = masked), for every blocking, split_every and "
-    "valid depth: ma_reduce_eq (sum/prod/min/max skip masked elements and are masked iff everything is masked — "
-    "K1 treeReduce_eq_fold at the lifted monoid, all-masked and empty blocks included), ma_reduce_nd_eq (the same over "
-    "several axes at once, any per-axis split_every — the n-d tree theorem at the lifted commutative monoid), ma_count_eq, ma_mean_eq "
-    "((masked total, #unmasked)), ma_elemwise_den (block-wise binary op = whole-array op, mask = OR), filled_den, "
-    "getmaskarray_den, masked_where_den, ma_cumsum_eq (sequential cumsum/cumprod on masked blocks = np.ma.cumsum). "
-    "Validated against numpy.ma only: fill_value propagation, dtype promotion, var/std/any/all, masked_* "
-    "predicates (they are one numpy.ma call per block), average/nonzero/where."
+    "Proved in Lean 4 at the element type Masked = Option Int (none = masked), for every blocking, split_every and valid depth: "
+    "ma_reduce_eq (sum/prod/min/max skip masked elements and are masked iff everything is masked — K1 treeReduce_eq_fold at the "
+    "lifted monoid, all-masked and empty blocks included), ma_reduce_nd_eq (the same over several axes at once, any per-axis "
+    "split_every), ma_count_eq, ma_mean_eq ((masked total, #unmasked)), ma_elemwise_den (block-wise binary op = whole-array op, "
+    "mask = OR), construction masked_array_den / getmask_masked_array, filled_den, getmaskarray_den, masked_where_den, "
+    "masked_by_den (every masked_<predicate>: equal/greater/less/…/invalid is one predicate on the value applied per block), "
+    "masked_inside_den / masked_outside_den with numpy.ma's normalisation of the bounds, masked_inside_swap / "
+    "masked_outside_swap (bounds in either order), masked_inside_mask, inside_outside_partition, masked_inside_raw_refuted / "
+    "masked_outside_raw_refuted (the plain comparison (x >= v1) & (x <= v2) is wrong for reversed bounds), ma_cumsum_eq "
+    "(sequential cumsum/cumprod on masked blocks = np.ma.cumsum). VALIDATED against numpy.ma only: fill_value propagation, dtype "
+    "promotion, var/std/any/all on masked data, NaN/inf semantics of masked_invalid / fix_invalid, the tolerances of "
+    "masked_values, average / set_fill_value, Blelloch scans on masked data, n-d value equality of reductions, sequences of "
+    "in-place steps (section seq)."
 )
 LEVEL_NOTE = ("Trusted: Lean kernel + standard axioms; numpy.ma on one block and numpy.ma as the reference; payload under "
               "the mask is unspecified in numpy.ma and is never compared.")
-TECHNIQUE = "Lean 4 proof (K1/K2 instantiated at Option Int) + differential correspondence against numpy.ma"
-ASSUMPTIONS = ["values under the mask are not observable (compared only through filled/getdata of unmasked positions)"]
+TECHNIQUE = "Lean 4 proof (K1/K2 instantiated at Option Int; pointwise maps distribute over blocks) + differential correspondence against numpy.ma"
+ASSUMPTIONS = ["values under the mask are not observable (compared only through filled/getdata of unmasked positions)",
+               "the value type of the model is Int: predicates on floats (NaN, inf, tolerances) are abstract predicates p in masked_by_den"]
 TRUSTED = ["numpy.ma per-block kernels and numpy.ma as oracle"]
 
 
